@@ -2,6 +2,7 @@
 from __future__ import annotations
 
 import itertools
+import json
 import multiprocessing as mp
 import os
 import random
@@ -575,6 +576,116 @@ def fixture_merges(ctx: Ctx):
                               + ("" if got2[1] == want_cells or got2[0] != want_ranges else " (cell states differ)"), where)
 
 
+def _sibling_case(case):
+    """one history with a second table / sheet added next to a table that has merged regions.  Returns a list of
+    (signature, what) - empty when every table reports exactly its own rectangles, on the open document and reopened."""
+    import tempfile
+    from numbers_parser import Document
+    from numbers_parser.xrefs import xl_range
+    problems = []
+    if case.get("fixture"):
+        doc = Document(str(common.REPO / "tests/data" / case["fixture"]))
+        si, ti = case["sheet"], case["table"]
+    else:
+        doc = Document(num_rows=case["shape"][0], num_cols=case["shape"][1])
+        si, ti = 0, 0
+        doc.sheets[0].tables[0].merge_cells(xl_range(*case["first"]))
+    tmpfiles = []
+
+    def cycle(d, keep):
+        fd, tmp = tempfile.mkstemp(suffix=".numbers")
+        os.close(fd)
+        tmpfiles.append(tmp)
+        d.save(tmp)
+        return d if keep else Document(tmp)
+    try:
+        if case["before"] == "save-keep":
+            doc = cycle(doc, True)
+        elif case["before"] == "save-reopen":
+            doc = cycle(doc, False)
+        first = doc.sheets[si].tables[ti]
+        want_first = _merge_picture(first)
+        nr, nc = case["new_shape"]
+        t2 = doc.sheets[si].add_table(num_rows=nr, num_cols=nc)
+        doc.add_sheet(num_rows=nr, num_cols=nc)
+        t3 = doc.sheets[-1].tables[0]
+        empty = ([], ["."] * (nr * nc))
+        for label, tb in (("a table added to the same sheet", t2), ("the table of an added sheet", t3)):
+            got = _merge_picture(tb)
+            if got != empty:
+                problems.append(("new-table-reports-merges", f"{label} (never merged) reports merge ranges {got[0]} and "
+                                 f"{sum(1 for x in got[1] if x != '.')} merged / placeholder cells on the open document; its sibling has {want_first[0]}"))
+        want2 = empty
+        if case.get("second") and not problems:
+            q = case["second"]
+            t2.merge_cells(xl_range(*q))
+            cells = ["."] * (nr * nc)
+            for r in range(q[0], q[2] + 1):
+                for c in range(q[1], q[3] + 1):
+                    cells[r * nc + c] = f"A{q[2]-q[0]+1}x{q[3]-q[1]+1}" if (r, c) == (q[0], q[1]) else f"P{q[0]},{q[1]},{q[2]},{q[3]}"
+            want2 = ([xl_range(*q)], cells)
+            if _merge_picture(t2) != want2:
+                problems.append(("picture:merge", f"merge_cells({xl_range(*q)}) on the added table: open document reports {_merge_picture(t2)[0]}"))
+            if _merge_picture(first) != want_first:
+                problems.append(("merge-shows-up-in-sibling-table", f"merging {xl_range(*q)} in the added table changed its sibling: "
+                                 f"{_merge_picture(first)[0]} (was {want_first[0]})"))
+        d2 = cycle(doc, False)
+        for label, tb, want in (("the first table", d2.sheets[si].tables[ti], want_first),
+                                ("the added table", d2.sheets[si].tables[-1], want2),
+                                ("the table of the added sheet", d2.sheets[-1].tables[0], empty)):
+            got = _merge_picture(tb)
+            if got != want:
+                problems.append(("open-vs-reloaded" if want[0] else "new-table-reports-merges",
+                                 f"{label}: open document {want[0]}, reopened file {got[0]}"
+                                 + ("" if got[0] != want[0] else " (cell states differ)")))
+    finally:
+        for t in tmpfiles:
+            if os.path.exists(t):
+                os.unlink(t)
+    return problems
+
+
+def sibling_tables(ctx: Ctx):
+    """tables and sheets added next to a table with merged regions (before any save, after a save of the open document,
+    after save + reopen, on documents written by Numbers): a new table has no merged region, a merge in it does not touch
+    its sibling, and every table reopens with exactly its own rectangles (oracle only)."""
+    rng = ctx.rng
+    cases = []
+    for before in ("none", "save-keep", "save-reopen"):
+        for k in range(2 if ctx.quick else 8):
+            nr, nc = rng.randrange(4, 9), rng.randrange(3, 7)
+            q = rng.choice([x for x in all_rects(nr, nc) if (x[2] - x[0] + 1) * (x[3] - x[1] + 1) > 1])
+            n2 = (rng.randrange(4, 9), rng.randrange(3, 7)) if k % 2 else (nr, nc)
+            q2 = rng.choice([x for x in all_rects(*n2) if (x[2] - x[0] + 1) * (x[3] - x[1] + 1) > 1]) if k != 1 else None
+            cases.append({"shape": [nr, nc], "first": list(q), "before": before, "new_shape": list(n2),
+                          "second": list(q2) if q2 else None})
+    for name in FIXTURES_WITH_MERGES[: 3 if ctx.quick else None]:
+        path = common.REPO / "tests/data" / name
+        if not path.exists():
+            continue
+        try:
+            from numbers_parser import Document
+            doc = Document(str(path))
+            tabs = [(si, ti, tb.num_rows, tb.num_cols) for si, sh in enumerate(doc.sheets) for ti, tb in enumerate(sh.tables)
+                    if tb.merge_ranges and tb.num_rows * tb.num_cols <= 1200]
+        except Exception:  # noqa: BLE001
+            continue
+        if tabs:
+            si, ti, nr, nc = tabs[0]
+            cases.append({"fixture": name, "sheet": si, "table": ti, "before": "none", "new_shape": [min(nr, 8), min(nc, 6)],
+                          "second": [0, 0, 1, 1]})
+    for case in cases:
+        try:
+            problems = _sibling_case(case)
+        except Exception as e:  # noqa: BLE001
+            problems = [("sibling-table-history-raises", f"{exc_name(e)}: {e}")]
+        ctx.count("a table and a sheet added next to a table with merged regions (new / saved / reopened / written by Numbers): "
+                  "every table reports exactly its own rectangles, open and reopened", 1)
+        ctx.mark(("sibling", json.dumps(case, sort_keys=True)))
+        for sig, what in problems:
+            ctx.violation(sig, what[:600], {"sibling": case})
+
+
 def run(ctx: Ctx):
     rng = ctx.rng
     with _pool() as pool:
@@ -609,10 +720,13 @@ def run(ctx: Ctx):
                  pool.map(run_scenario, jobs, chunksize=4), False)
     tall_probe(ctx)
     fixture_merges(ctx)
+    sibling_tables(ctx)
 
 
 def replay(data):
     i = data.get("input", {})
+    if "sibling" in i:
+        return {"problems": _sibling_case(i["sibling"])}
     r = MergeRunner(tuple(i["shape"]))
     for sop in i["ops"]:
         if sop[0] == "sv" and r.history and r.history[-1] == ["sv"]:
